@@ -226,6 +226,16 @@ def _p8b(w):
     return dict(kids=match_any([w.pool[0], w.pool[1]])), (lambda o: OR([w.same(q, p) for q in o.kids for p in w.pool[:2]])), {}
 
 
+@pattern("kids=match_any([]) (an empty literal collection matches nothing)", needs=("kids",))
+def _p8e(w):
+    return dict(kids=match_any([])), (lambda o: False), {}
+
+
+@pattern("kids=match_all([]) (exactly the empty collection)", needs=("kids",), veq_ok=False)
+def _p9e(w):
+    return dict(kids=match_all([])), (lambda o: len(o.kids) == 0), {}
+
+
 @pattern("kids=match_all([q0,q1])", needs=("kids",), veq_ok=False)
 def _p9(w):
     return dict(kids=match_all([w.pool[0], w.pool[1]])), (lambda o: set(map(id, o.kids)) == {id(w.pool[0]), id(w.pool[1])}), {}
